@@ -82,16 +82,37 @@ GenShape(n) ==
   [id |-> "g" \o ToString(n), np |-> <<0,2,1,1,1>>,
    calls |-> <<C(1,2,<<T(1),T(2)>>)>> \o GenCalls(n)[1] \o GenCalls(n)[2] \o GenCalls(n)[3] \o GenCalls(n)[4] \o GenCalls(n)[5]]
 
-ShapeSet == {Hand[i] : i \in 1..NHand} \cup {GenShape(n) : n \in GenLo..GenHi}
+-----------------------------------------------------------------------------
+(* The least fixpoint of the flow rules, stated independently of the algorithm *)
+(*   reflected(seed, 0)                                                        *)
+(*   reflected(g, k) /\ call c in f to g /\ c.args[k] = param i of f  =>  reflected(f, i) *)
+(*   reflected(g, k) /\ call c to g      /\ c.args[k] = value of type T  =>  T keeps its names *)
+
+ArgAt(c, k) == c.args[k + 1]
+CallSet(s) == {s.calls[i] : i \in DOMAIN s.calls}
+Flow1(cs, R) ==
+  R \cup UNION {{<<c.f, ArgAt(c, k).v>> : k \in {j \in 0..(Len(c.args) - 1) : <<c.g, j>> \in R /\ ArgAt(c, j).k = "p"}} : c \in cs}
+RECURSIVE LfpFrom(_, _)
+LfpFrom(cs, R) == LET n == Flow1(cs, R) IN IF n = R THEN R ELSE LfpFrom(cs, n)
+LfpParams(s) == LfpFrom(CallSet(s), {<<0, 0>>})
+LfpApisOf(s, R) == [g \in 0..Len(s.np) |-> {p[2] : p \in {q \in R : q[1] = g}}]
+LfpNamesOf(s, R) ==
+  UNION {{ArgAt(c, k).v : k \in {j \in 0..(Len(c.args) - 1) : <<c.g, j>> \in R /\ ArgAt(c, j).k = "t"}} : c \in CallSet(s)}
+
+(* a shape with everything that is needed repeatedly computed once *)
+Annot(s) ==
+  LET R == LfpParams(s) IN
+  [id |-> s.id, np |-> s.np, calls |-> s.calls,
+   byf |-> [f \in 1..Len(s.np) |-> {c \in CallSet(s) : c.f = f}],
+   lfpn |-> LfpNamesOf(s, R), lfpa |-> LfpApisOf(s, R)]
+
+ShapeSet == {Annot(Hand[i]) : i \in 1..NHand} \cup {Annot(GenShape(n)) : n \in GenLo..GenHi}
 
 -----------------------------------------------------------------------------
-(* The algorithm *)
+(* The algorithm (s is an annotated shape) *)
 
-Funcs(sh) == 1..Len(sh.np)
-CallSet(sh) == {sh.calls[i] : i \in DOMAIN sh.calls}
-ArgAt(c, k) == c.args[k + 1]
-
-A0(sh) == [g \in 0..Len(sh.np) |-> IF g = 0 THEN {0} ELSE {}]   \* computePkgCache's initial table
+Funcs(s) == 1..Len(s.np)
+A0(s) == [g \in 0..Len(s.np) |-> IF g = 0 THEN {0} ELSE {}]    \* computePkgCache's initial table
 Known(A) == {g \in DOMAIN A : A[g] # {}}                          \* keys of the ReflectAPIs map
 Done(A, N) == Cardinality(Known(A)) + Cardinality(N)              \* len(ReflectAPIs)+len(ReflectObjectNames)
 
@@ -99,8 +120,8 @@ Done(A, N) == Cardinality(Known(A)) + Cardinality(N)              \* len(Reflect
 (* skipped; for every known reflected parameter k of the callee the k-th      *)
 (* argument is recorded: a concrete type is added to the names, a parameter   *)
 (* of f joins f's own reflected parameters (written back at the end).         *)
-VisitResult(sh, f, A, N, Ck) ==
-  LET live == {c \in CallSet(sh) : c.f = f /\ c.g \notin Ck}
+VisitResult(s, f, A, N, Ck) ==
+  LET live == {c \in s.byf[f] : c.g \notin Ck}
       hits == UNION {{<<c, k>> : k \in {j \in A[c.g] : j < Len(c.args)}} : c \in live}
       newN == {ArgAt(h[1], h[2]).v : h \in {x \in hits : ArgAt(x[1], x[2]).k = "t"}}
       newP == {ArgAt(h[1], h[2]).v : h \in {x \in hits : ArgAt(x[1], x[2]).k = "p"}}
@@ -108,7 +129,7 @@ VisitResult(sh, f, A, N, Ck) ==
 
 VARIABLES shape, apis, names, checked, notChecked, todo, prevDone, phase, pass, hist, late
 vars == <<shape, apis, names, checked, notChecked, todo, prevDone, phase, pass, hist, late>>
-view == <<shape, apis, names, checked, notChecked, todo, prevDone, phase, late>>
+view == <<shape.id, apis, names, checked, notChecked, todo, prevDone, phase, late>>
 
 Init ==
   /\ shape \in ShapeSet
@@ -143,33 +164,8 @@ Next == (\E f \in todo : Visit(f)) \/ EndPass
 Spec == Init /\ [][Next]_vars
 
 -----------------------------------------------------------------------------
-(* The least fixpoint of the flow rules, stated independently of the algorithm *)
-
-RECURSIVE LfpFrom(_, _)
-Flow1(sh, R) ==
-  R \cup UNION {{<<c.f, ArgAt(c, k).v>> : k \in {j \in 0..(Len(c.args) - 1) : <<c.g, j>> \in R /\ ArgAt(c, j).k = "p"}} : c \in CallSet(sh)}
-LfpFrom(sh, R) == IF Flow1(sh, R) = R THEN R ELSE LfpFrom(sh, Flow1(sh, R))
-LfpParams(sh) == LfpFrom(sh, {<<0, 0>>})
-LfpApis(sh) == [g \in 0..Len(sh.np) |-> {p[2] : p \in {q \in LfpParams(sh) : q[1] = g}}]
-LfpNames(sh) ==
-  UNION {{ArgAt(c, k).v : k \in {j \in 0..(Len(c.args) - 1) : <<c.g, j>> \in LfpParams(sh) /\ ArgAt(c, j).k = "t"}} : c \in CallSet(sh)}
-
------------------------------------------------------------------------------
-(* The same algorithm as constant-level operators: all terminal results over  *)
-(* every per-pass order, and the result of one fixed order used in every pass *)
-(* (what `garble verif reflect -order=list:...` replays).                     *)
-
-RECURSIVE PassOutcomes(_, _, _, _, _)
-PassOutcomes(s, td, A, N, Ck) ==
-  IF td = {} THEN {<<A, N>>}
-  ELSE UNION {LET r == VisitResult(s, f, A, N, Ck) IN PassOutcomes(s, td \ {f}, r[1], r[2], Ck) : f \in td}
-
-RECURSIVE TerminalsFrom(_, _, _, _)
-TerminalsFrom(s, A, N, Ck) ==
-  LET nc == Known(A) \ Ck
-      outs == PassOutcomes(s, Funcs(s), A, N, Ck)
-  IN UNION {IF Done(o[1], o[2]) > Done(A, N) THEN TerminalsFrom(s, o[1], o[2], Ck \cup nc) ELSE {o} : o \in outs}
-Terminals(s) == TerminalsFrom(s, A0(s), {}, {})
+(* The same algorithm as constant-level operators for ONE order used in every *)
+(* pass (what `garble verif reflect -order=list:...` replays).                *)
 
 RECURSIVE VisitSeq(_, _, _, _, _)
 VisitSeq(s, ord, A, N, Ck) ==
@@ -188,13 +184,15 @@ RunFixed(s, ord) == RunFixedFrom(s, ord, A0(s), {}, {}, 1)
 (* another pass runs iff something grew ANYWHERE in the package.  So inside a  *)
 (* bigger package a shape goes through exactly the states of RunForced: the   *)
 (* same passes, continued regardless of its own growth; the package stops     *)
-(* after the first pass in which no shape grew.                               *)
+(* after the first pass in which no shape grew.  (Alone, the shape stops      *)
+(* after its first pass with grew = FALSE.)                                   *)
+ApiRows(A) == [g \in DOMAIN A |-> SetToSeq(A[g])]
 RECURSIVE RunForcedFrom(_, _, _, _, _, _)
 RunForcedFrom(s, ord, A, N, Ck, n) ==
   IF n = 0 THEN <<>>
   ELSE LET nc == Known(A) \ Ck
            o == VisitSeq(s, ord, A, N, Ck)
-       IN <<[apis |-> [g \in DOMAIN o[1] |-> SetToSeq(o[1][g])], names |-> SetToSeq(o[2]), grew |-> Done(o[1], o[2]) > Done(A, N)]>> \o
+       IN <<[apis |-> ApiRows(o[1]), names |-> SetToSeq(o[2]), grew |-> Done(o[1], o[2]) > Done(A, N)]>> \o
           RunForcedFrom(s, ord, o[1], o[2], Ck \cup nc, n - 1)
 RunForced(s, ord) == RunForcedFrom(s, ord, A0(s), {}, {}, TraceLen)
 
@@ -207,52 +205,47 @@ TypeOK ==
   /\ \A g \in DOMAIN apis : apis[g] \subseteq 0..1
 
 (* never records more than the flow rules justify *)
-Sound == names \subseteq LfpNames(shape) /\ \A g \in DOMAIN apis : apis[g] \subseteq LfpApis(shape)[g]
+Sound == names \subseteq shape.lfpn /\ \A g \in DOMAIN apis : apis[g] \subseteq shape.lfpa[g]
 
 (* every pass but the last adds a map entry, so the number of passes is bounded *)
 PassBound == pass <= Len(shape.np) + 4
 
-CompleteState == names = LfpNames(shape) /\ apis = LfpApis(shape)
+CompleteState == names = shape.lfpn /\ apis = shape.lfpa
 
 (* EXPECTED TO FAIL on the unchanged tree (finding F6): leads, replayed on the real code *)
 Complete == phase = "done" => CompleteState
-OrderIndependent == phase = "done" => [apis |-> apis, names |-> names] =
-                        [apis |-> RunFixed(shape, [i \in 1..Len(shape.np) |-> i]).apis,
-                         names |-> RunFixed(shape, [i \in 1..Len(shape.np) |-> i]).names]
+OrderIndependent == phase = "done" =>
+   LET r == RunFixed(shape, [i \in 1..Len(shape.np) |-> i]) IN apis = r.apis /\ names = r.names
+(* the API table alone is also order dependent: a pass that only grows a      *)
+(* parameter set does not grow len(ReflectAPIs), so the loop can stop early   *)
+ApisComplete == phase = "done" => apis = shape.lfpa
 
 (* The only way the model loses something: some function's reflected-param   *)
-(* set grew after it had first been recorded (and so could be memoised with   *)
-(* the smaller set).  This is what makes the known-finding matcher specific.  *)
+(* set grew after it had first been recorded (so that it could be memoised,   *)
+(* or the loop could stop, with the smaller set).  This is what makes the     *)
+(* known-finding matcher specific.                                            *)
 LossNeedsLateGrowth == (phase = "done" /\ ~CompleteState) => late
 
-(* the names are never lost while the API table is complete for other reasons *)
-ApisComplete == phase = "done" => apis = LfpApis(shape)
+(* the state machine and the constant-level transcription agree: a behaviour  *)
+(* that used the same order in every pass ends where RunFixed says            *)
+FixedAgrees == (phase = "done" /\ \A i \in DOMAIN hist : hist[i] = hist[1]) =>
+   LET r == RunFixed(shape, hist[1]) IN apis = r.apis /\ names = r.names /\ pass = r.passes
 
-(* the state machine and the constant-level transcription agree *)
-TermTable == [s \in ShapeSet |-> Terminals(s)]
-InTable == phase = "done" => <<apis, names>> \in TermTable[shape]
-
-LossLine == (EmitLoss /\ phase = "done" /\ names # LfpNames(shape)) =>
-               PrintT(<<"LOSS", shape.id, LfpNames(shape) \ names, hist>>)
+(* one line per incomplete terminal state (distinct modulo VIEW) for the harness *)
+LossLine == (EmitLoss /\ phase = "done" /\ names # shape.lfpn) =>
+               PrintT(<<"LOSS", shape.id, shape.lfpn \ names, hist>>)
 
 -----------------------------------------------------------------------------
 (* Table extraction *)
 
-ApiRows(A) == [g \in DOMAIN A |-> SetToSeq(A[g])]
-Row(s, full) ==
-  LET term == Terminals(s)
-      lfpn == LfpNames(s)
+Row(s0) ==
+  LET s == Annot(s0)
+      ps == SetToSeq(SetToSeqs(Funcs(s)))
   IN [id |-> s.id, np |-> s.np, calls |-> s.calls,
-      lfp_names |-> SetToSeq(lfpn), lfp_apis |-> ApiRows(LfpApis(s)),
-      vulnerable |-> SetToSeq({t \in lfpn : \E o \in term : t \notin o[2]}),
-      terminals |-> SetToSeq({[apis |-> ApiRows(o[1]), names |-> SetToSeq(o[2])] : o \in term}),
-      fixed |-> IF full THEN SetToSeq({LET r == RunFixed(s, ord) IN
-                   [order |-> ord, apis |-> ApiRows(r.apis), names |-> SetToSeq(r.names), passes |-> r.passes,
-                    trace |-> RunForced(s, ord)]
-                   : ord \in SetToSeqs(Funcs(s))})
-                ELSE <<>>]
+      lfp_names |-> SetToSeq(s.lfpn), lfp_apis |-> ApiRows(s.lfpa),
+      fixed |-> [i \in DOMAIN ps |-> [order |-> ps[i], trace |-> RunForced(s, ps[i])]]]
 AllShapes == [i \in 1..NHand |-> Hand[i]] \o SetToSeq({GenShape(n) : n \in PickGen})
-ShapeTable == [i \in DOMAIN AllShapes |-> Row(AllShapes[i], TRUE)]
+ShapeTable == IF EmitTable THEN [i \in DOMAIN AllShapes |-> Row(AllShapes[i])] ELSE <<>>
 
 -----------------------------------------------------------------------------
 (* Part 2: struct-shape / layout / flow cells.                                *)
@@ -296,10 +289,12 @@ NeedsMerge(c) == ApiPkg(c) # "main" \/ c.site # "main"
 CellRow(c) == [decl |-> c.decl, site |-> c.site, via |-> c.via, cons |-> c.cons, tshape |-> c.tshape, api |-> c.api,
                api_pkg |-> ApiPkg(c), needs_merge |-> NeedsMerge(c), expect |-> "all-names-kept"]
 
+CellTable == IF EmitTable THEN SetToSeq({CellRow(c) : c \in Cells}) ELSE <<>>
+
 (* every reflected type of a cell is named by the site and the API package is *)
 (* the site's package or one of its dependencies                              *)
 ASSUME \A c \in Cells : Imports(c.site, ApiPkg(c)) /\ Imports(c.site, c.decl)
 
 ASSUME EmitTable => JsonSerialize("reflect_table.json",
-          [shapes |-> ShapeTable, cells |-> SetToSeq({CellRow(c) : c \in Cells})])
+          [shapes |-> ShapeTable, cells |-> CellTable])
 =============================================================================
